@@ -38,7 +38,7 @@ def floors(tier):
             "best_match_is_descendant": 500, "best_match_is_toplevel": 2000,
             "reused_validator_sequences": 1000, "root_reference_objects": 500,
             "fault_cases": 2000, "fault_after_first_error": 300, "fault_before_first_error": 300,
-            "explicit_class_with_foreign_dollar_schema": 1000, "non_object_whole_schemas": 20, "cases_exotic_containers": 800}
+            "explicit_class_with_foreign_dollar_schema": 1000, "non_object_whole_schemas": 20, "cases_exotic_containers": 800, "repeats_after_a_failed_call": 40}
 
 
 # ------------------------------------------------------------------ recording proxies
@@ -406,9 +406,51 @@ def biased(rng, d):
     return s
 
 
+def after_a_failed_call(ctx):
+    """Repeating a call gives identical results - also when, in between, another call on the same validator ended in an
+    exception (an id that cannot be made a base URI, an unresolvable reference, an unknown type)."""
+    for d in impl.DRAFTS:
+        idk = impl.IDKW[d]
+        for root_id in (None, "http://vf.example/c04/root.json", "sub/root.json"):
+            for name, trap in (("unparseable-nested-id", {idk: "http://[", "type": "integer"}), ("dangling-ref", {"$ref": "#/definitions/vf-missing"}),
+                               ("unknown-type", {"type": "vf-unknown"}), ("nested-id-then-dangling-ref", {idk: "inner/", "items": {"$ref": "nowhere.json"}})):
+                S = {"properties": {"trap": trap, "ok": {"type": "string"}, "deep": {idk: "d/", "items": {"type": "null"}}}, "required": ["zz"] if d != 3 else []}
+                if d == 3:
+                    S.pop("required")
+                if root_id:
+                    S[idk] = root_id
+                v = impl.CLS[d](S)
+                probes = [{"ok": 1, "deep": [1, None]}, {"ok": "s"}, {"deep": [None]}, 5]
+
+                def look():
+                    out = []
+                    for p_ in probes:
+                        try:
+                            out.append(("errors", fps(v.iter_errors(p_)), v.is_valid(p_)))
+                        except Exception as e:
+                            out.append(("exc", type(e).__name__))
+                    return out
+                before = look()
+                for inst in ({"trap": [1]}, {"trap": 1, "ok": 2}):
+                    for call in (lambda: v.is_valid(inst), lambda: list(v.iter_errors(inst)), lambda: v.validate(inst)):
+                        try:
+                            call()
+                        except Exception:
+                            pass
+                after = look()
+                ctx.count("repeats_after_a_failed_call")
+                ctx.case([d, name, root_id, "after-failed-call"], nontrivial=True)
+                if after != before:
+                    k = next(i for i, (a, b) in enumerate(zip(before, after)) if a != b)
+                    ctx.violation("repeat", {"draft": d, "schema": S, "instance": probes[k], "after_a_failed_call": name},
+                                  "the same call on the same validator gave %r before and %r after another call on it failed" % (str(before[k])[:150], str(after[k])[:150]))
+
+
 def run(ctx):
     impl.quiet()
     C = Cmp(ctx)
+    if ctx.shard == 1 % ctx.nshards:
+        after_a_failed_call(ctx)
     # whole schemas that are neither objects nor booleans, given to module-level validate() WITHOUT a class (the latest
     # draft is chosen) and with every explicit class: SchemaError before the instance is looked at
     if ctx.shard == 0:
@@ -475,6 +517,9 @@ def replay(ctx, rec):
     impl.quiet()
     c = rec["case"]
     C = Cmp(ctx)
+    if c.get("after_a_failed_call"):
+        after_a_failed_call(ctx)
+        return
     if c.get("fault"):
         fc = None
         if c["fault"] == "format-function-raises":
